@@ -63,8 +63,10 @@ def run(res):
     cases = []
     n = 0
     for (sname, text), use_o, use_e, use_v, loc in itertools.product(SOURCES.items(), (False, True), (False, True), (False, True),
-                                                                     ("writable", "missing-dir", "is-a-directory", "overwrite")):
-        if loc in ("missing-dir", "is-a-directory") and not (use_o or use_e):
+                                                                     ("writable", "missing-dir", "is-a-directory", "overwrite", "write-fails")):
+        if loc in ("missing-dir", "is-a-directory", "write-fails") and not (use_o or use_e):
+            continue
+        if loc == "write-fails" and not os.path.exists("/dev/full"):
             continue
         n += 1
         d = os.path.join(work, "case%d" % n)
@@ -87,13 +89,13 @@ def run(res):
             open(os.path.join(d, "src", fn), "w").write(content)
         open(os.path.join(d, "src", "bystander.hex"), "w").write("keep me\n")
         args = ["-s", src if how in ("absolute", "symlink") else os.path.relpath(src, d)]
-        target = {"writable": "out/%s", "missing-dir": "nodir/%s", "is-a-directory": "out/%s", "overwrite": "out/%s"}[loc]
+        target = {"writable": "out/%s", "missing-dir": "nodir/%s", "is-a-directory": "out/%s", "overwrite": "out/%s", "write-fails": "out/%s"}[loc]
         paths = {"code": os.path.join(d, "src", stem + ".hex"), "eeprom": os.path.join(d, "src", stem + ".eep.hex")}
         if use_o:
-            paths["code"] = os.path.join(d, target % "flash.hex")
+            paths["code"] = os.path.join(d, target % "flash.hex") if loc != "write-fails" else "/dev/full"
             args += ["-o", paths["code"]]
         if use_e:
-            paths["eeprom"] = os.path.join(d, target % "ee.hex")
+            paths["eeprom"] = os.path.join(d, target % "ee.hex") if loc != "write-fails" else "/dev/full"
             args += ["-e", paths["eeprom"]]
         if loc == "is-a-directory":
             for k, u in (("code", use_o), ("eeprom", use_e)):
@@ -125,7 +127,7 @@ def run(res):
             for k in ("code", "eeprom"):
                 img = bytes.fromhex(l[k])
                 if img:
-                    if c["location"].split("/")[0] in ("missing-dir", "is-a-directory") and c["redirected"][k]:
+                    if c["location"].split("/")[0] in ("missing-dir", "is-a-directory", "write-fails") and c["redirected"][k]:
                         unwritable = True
                     else:
                         want[c["paths"][k]] = img
@@ -163,7 +165,8 @@ def run(res):
                                                     exits={str(k): sum(1 for c in cases if c["exit"] == k) for k in set(c["exit"] for c in cases)})
     res.extra["exhaustive"] = True
     res.rule = ("%d sources (valid with/without EEPROM data, EEPROM only, empty, comment only, four kinds of failing, with messages) x "
-                "all 8 combinations of -o/-e/-v x {writable, output in a missing directory, output path is a directory}; the source is "
+                "all 8 combinations of -o/-e/-v x {writable, output in a missing directory, output path is a directory, output already there and "
+                "longer, output that opens but cannot be written (/dev/full)}; the source is "
                 "named prog.v1.asm so that the stem rule shows; a bystander file must stay untouched" % len(SOURCES))
     res.samples = [dict(case="%s %s" % (c["source"], c["args"][2:]), exit=c["exit"], created=sorted(c["created"])) for c in cases[:3]]
     res.assume = ["OS failures enter the model through the oracle can_create; signals, disk-full, races are not modelled",
